@@ -215,8 +215,11 @@ func runC07(c *core.Ctx) error {
 	// ---- R07.3
 	checkCacheKeys(c, r3, prog, allFns)
 
+	checkRootLookupGuard(c, r3, allFns)
+
 	// ---- R07.4
 	checkRecursionBreak(c, r4, prog)
+	checkIROrder(c, r4, prog)
 
 	// ---- R07.5
 	checkDepthPairing(c, r5, prog)
@@ -334,11 +337,78 @@ func checkMeasure(c *core.Ctx, r *core.Rule, addKey, del *ssa.Function) {
 			}
 		}
 	}
+	// every successful AddKey pushes the location and records the key; every Delete pops: the stores are
+	// not conditional on the key (a key-dependent skip makes relative references resolve against the wrong
+	// base document)
+	pushAll, popAll := true, true
+	var pushStore, refsUpdate ssa.Instruction
+	for _, b := range addKey.Blocks {
+		for _, in := range b.Instrs {
+			switch x := in.(type) {
+			case *ssa.Store:
+				if fa, ok := x.Addr.(*ssa.FieldAddr); ok && fieldName(fa.X.Type(), fa.Field) == "locstack" {
+					pushStore = x
+				}
+			case *ssa.MapUpdate:
+				if isFieldLoad(x.Map, "refs") {
+					refsUpdate = x
+				}
+			}
+		}
+	}
+	for _, b := range addKey.Blocks {
+		if ret, ok := b.Instrs[len(b.Instrs)-1].(*ssa.Return); ok && core.IsNilConst(ret.Results[0]) {
+			if pushStore == nil || refsUpdate == nil || !pushStore.Block().Dominates(b) || !refsUpdate.Block().Dominates(b) {
+				pushAll = false
+			}
+		}
+	}
+	for _, b := range del.Blocks {
+		if _, ok := b.Instrs[len(b.Instrs)-1].(*ssa.Return); !ok {
+			continue
+		}
+		// the refs removal and the depth increment dominate every return
+		var rm, incSt ssa.Instruction
+		for _, bb := range del.Blocks {
+			for _, in := range bb.Instrs {
+				switch x := in.(type) {
+				case *ssa.Call:
+					if bi, ok := x.Common().Value.(*ssa.Builtin); ok && bi.Name() == "delete" {
+						rm = x
+					}
+				case *ssa.Store:
+					if fa, ok := x.Addr.(*ssa.FieldAddr); ok && fieldName(fa.X.Type(), fa.Field) == "depthLimit" {
+						incSt = x
+					}
+				}
+			}
+		}
+		if rm == nil || incSt == nil || !rm.Block().Dominates(b) || !incSt.Block().Dominates(b) {
+			popAll = false
+		}
+		// the pop of locstack may only be skipped when the stack is empty (len test), not by a key test
+		for _, bb := range del.Blocks {
+			for _, in := range bb.Instrs {
+				if call, ok := in.(*ssa.Call); ok && call.Common().StaticCallee() != nil && call.Common().StaticCallee().Name() == "IsRoot" {
+					popAll = false
+				}
+			}
+		}
+	}
+	for _, b := range addKey.Blocks {
+		for _, in := range b.Instrs {
+			if call, ok := in.(*ssa.Call); ok && call.Common().StaticCallee() != nil && call.Common().StaticCallee().Name() == "IsRoot" {
+				pushAll = false
+			}
+		}
+	}
 	for _, it := range []struct {
 		ok   bool
 		key  string
 		what string
 	}{
+		{pushAll, "AddKey:unconditional-push", "every successful AddKey records the key and pushes its location, independent of the key"},
+		{popAll, "Delete:unconditional-pop", "every Delete removes the key and restores the depth budget, independent of the key"},
 		{guard, "AddKey:depth-guard", "AddKey returns an error when depthLimit <= 0"},
 		{dec, "AddKey:decrement", "AddKey decrements depthLimit"},
 		{member, "AddKey:in-progress-test", "AddKey tests membership of the key in refs"},
@@ -591,5 +661,123 @@ func checkDepthPairing(c *core.Ctx, r *core.Rule, prog *core.Prog) {
 		r.Pass("generate panics with *schemaDepthError beyond the limit; handleSchemaDepth re-panics anything else")
 	} else {
 		r.Fail("depth-handler", c.Pos(handle.Pos()), fmt.Sprintf("depth limit panic (%v) / re-panic of foreign values (%v) not established", panics, repanic))
+	}
+}
+
+// checkRootLookupGuard: in resolveComponent the by-name lookup in the ROOT
+// document's decoded components is done only for keys of the root document.
+func checkRootLookupGuard(c *core.Ctx, r *core.Rule, fns []*ssa.Function) {
+	for _, fn := range fns {
+		name := fn.Name()
+		if o := fn.Origin(); o != nil {
+			name = o.Name()
+		}
+		if name != "resolveComponent" || fn.Blocks == nil {
+			continue
+		}
+		var isRoot *ssa.Call
+		for _, call := range core.Calls(fn) {
+			if cl, ok := call.(*ssa.Call); ok && cl.Common().StaticCallee() != nil && cl.Common().StaticCallee().Name() == "IsRoot" {
+				isRoot = cl
+			}
+		}
+		for _, b := range fn.Blocks {
+			for _, in := range b.Instrs {
+				lk, ok := in.(*ssa.Lookup)
+				if !ok || !lk.CommaOk || !isFieldLoad(lk.X, "components") && !isFieldOfValue(lk.X, "components") {
+					continue
+				}
+				guarded := false
+				if isRoot != nil {
+					for _, eb := range core.EdgeBlocks(isRoot, true) {
+						if eb.Dominates(b) || eb == b {
+							guarded = true
+						}
+					}
+				}
+				if guarded {
+					r.Pass("resolveComponent: the lookup in the root document's components is guarded by ctx.IsRoot(key)")
+				} else {
+					r.Fail("resolveComponent:root-lookup-unguarded", c.Pos(lk.Pos()), "the by-name lookup in the root document's components is not restricted to references into the root document: a same-named component of an external file is shadowed by the root's")
+				}
+				return // one instantiation suffices (all share the source)
+			}
+		}
+	}
+}
+
+func isFieldOfValue(v ssa.Value, field string) bool {
+	if f, ok := v.(*ssa.Field); ok {
+		return fieldName(f.X.Type(), f.Field) == field
+	}
+	return false
+}
+
+// checkIROrder: in makeIR no call that (transitively) generates operations
+// runs after the call that runs checkStructRecursions.
+func checkIROrder(c *core.Ctx, r *core.Rule, prog *core.Prog) {
+	mk := prog.Func(pkgGen, "Generator.makeIR")
+	chk := prog.Func(pkgGen, "checkStructRecursions")
+	if mk == nil || chk == nil {
+		r.Undecided("anchor:makeIR", "-", "gen.(*Generator).makeIR not found")
+		return
+	}
+	reachesFn := func(from *ssa.Function, pred func(*ssa.Function) bool) bool {
+		seen := map[*ssa.Function]bool{}
+		stack := []*ssa.Function{from}
+		for len(stack) > 0 {
+			f := stack[len(stack)-1]
+			stack = stack[:len(stack)-1]
+			if f == nil || seen[f] || !core.InModule(f) {
+				continue
+			}
+			seen[f] = true
+			if pred(f) {
+				return true
+			}
+			for _, g := range core.AllFuncs(f) {
+				for _, call := range core.Calls(g) {
+					if cal := call.Common().StaticCallee(); cal != nil {
+						stack = append(stack, cal)
+					}
+				}
+			}
+		}
+		return false
+	}
+	var checkCall ssa.CallInstruction
+	var genCalls []ssa.CallInstruction
+	for _, call := range core.Calls(mk) {
+		cal := call.Common().StaticCallee()
+		if cal == nil {
+			continue
+		}
+		if reachesFn(cal, func(f *ssa.Function) bool { return f == chk }) {
+			checkCall = call
+		}
+		if reachesFn(cal, func(f *ssa.Function) bool { return f.Name() == "generateOperation" }) {
+			genCalls = append(genCalls, call)
+		}
+	}
+	if checkCall == nil {
+		r.Fail("makeIR:no-check", c.Pos(mk.Pos()), "makeIR never reaches checkStructRecursions")
+		return
+	}
+	bad := false
+	for _, g := range genCalls {
+		if g == checkCall {
+			continue
+		}
+		after := reaches(checkCall.Block(), g.Block()) && (checkCall.Block() != g.Block() || instrIndex(checkCall) < instrIndex(g))
+		if checkCall.Block() == g.Block() && instrIndex(checkCall) < instrIndex(g) {
+			after = true
+		}
+		if after {
+			bad = true
+			r.Fail("makeIR:generate-after-check", c.Pos(g.Pos()), fmt.Sprintf("%s generates operations (and their types) after checkStructRecursions has run: recursive types introduced there are emitted unbroken and do not compile", g.Common().StaticCallee().Name()))
+		}
+	}
+	if !bad {
+		r.Pass(fmt.Sprintf("makeIR: no operation generation (%d sites) runs after the recursion check", len(genCalls)))
 	}
 }
